@@ -7,9 +7,9 @@ CONSTANTS
   SharedPath = FALSE
   EmptyListPassThrough = FALSE
   Mode = "hist"
-  HashCache = "never"
+  HashCache = "none"
   CopyViaCtor = FALSE
-  Emit = TRUE
+  Emit = FALSE
+INVARIANT HashLawful
 INVARIANT CacheOnlyAfterHash
-INVARIANT EmitBeh
 CHECK_DEADLOCK FALSE
